@@ -145,6 +145,10 @@ def service_oracle(script, impl):
             continue
         if out == 'blocked' or out == 'not-open' or out == 'skipped':
             continue
+        if out.startswith('svc=err:hung'):
+            bad('hung: a request that may not wait for anything did not return (a lock is held that the lock discipline does not '
+                'account for: e.g. a transaction the engine downgraded to read-only still holding the write lock)', ws, out)
+            continue
         if out.startswith('svc=err:apply-blocked'):
             bad('apply: a replicated entry was not applied within 5 s (the applier waits for something a client holds: a replica must '
                 'keep applying replicated operations while it serves reads)', ws, out)
